@@ -84,6 +84,8 @@ def gen_params(rng):
     if rng.random() < 0.4:
         p["rweight"] = float(rng.choice([-1.0, 0.5, -0.8]))
         p["resolution"] = int(rng.choice([1, 3, 50]))
+    elif rng.random() < 0.25:
+        p["resolution"] = int(rng.choice([1, 7, 50]))  # a resolution without separation weighting is kept as given
     kind = rng.choice(["gen", "gen", "gen", "custom"])
     if kind == "gen":
         p["zmin"] = float(rng.choice([0.0, 0.01, 0.07, 0.1, 0.3, rng.uniform(0.0, 1.0)]))
